@@ -110,6 +110,25 @@ pub async fn apply_op(
             let mut outcome = Default::default();
             account.force_merge_folder(folder, diff, &mut outcome).await?;
         }
+        "merge" => {
+            // a patch of two events made by another device on the agreed base
+            use sos_core::events::patch::{FolderDiff, Patch};
+            use sos_core::events::EventRecord;
+            use sos_sync::Merge;
+            let (last_commit, checkpoint) = {
+                let f = account.folder(folder).await?;
+                let log = f.event_log();
+                let log = log.read().await;
+                (log.tree().last_commit(), log.tree().head()?)
+            };
+            let mut records = Vec::new();
+            for n in ["merged name 1", "merged name 2"] {
+                records.push(EventRecord::encode_event(&WriteEvent::SetVaultName(n.to_string())).await?);
+            }
+            let diff = FolderDiff { last_commit, checkpoint, patch: Patch::new(records) };
+            let mut outcome = Default::default();
+            account.merge_folder(folder, diff, &mut outcome).await?;
+        }
         "mkfolder" => {
             use sos_account::FolderCreate;
             let FolderCreate { folder: summary, .. } = account
@@ -155,6 +174,8 @@ pub fn probe_of(label: &str, backend: &str) -> Option<(&'static str, usize)> {
         ("forcemerge", 7, "fs") => ("fs_vault_replace:before_write", 1),
         ("forcemerge", 4, "db") => ("db_log_insert:before_tx", 1),
         ("forcemerge", 5, "db") => ("db_log_insert:after_tx", 1),
+        ("merge", 2, "db") => ("db_log_insert:after_tx", 1),
+        ("merge", 2, "fs") => ("fs_log_append:after_write", 1),
         ("mkfolder", 2, _) => ("client_create_folder:after_prepare", 1),
         ("mkfolder", 3, _) => ("client_create_folder:after_account_event", 1),
         ("rmfolder", 2, _) => ("client_delete_folder:after_remove_vault", 1),
